@@ -390,6 +390,10 @@ HRenderStep(k, rec, s0) == LET s == Fresh(s0, rec)
                                prev == Lookup(s.rmemo, key) IN
   IF /\ Require(rec.qr_unchanged = 1, k, rec, "C14", "rendering modified the QR code")
      /\ Require(prev = <<>> \/ prev[2] = rec.hash, k, rec, "C14", "two renderings of the same QR code with the same options differ")
+     \* the two shared QR codes differ, and every renderer reproduces every module: equal output for both means the output
+     \* came from somewhere else than the QR code it was given
+     /\ Require(\A i \in DOMAIN s.rmemo : (s.rmemo[i][1][2] = rec.renderer /\ s.rmemo[i][1][1] # rec.qrid) => s.rmemo[i][2] # rec.hash, k, rec, "C14",
+                 "renderings of two different QR codes coincide: the output does not depend on the QR code alone")
   THEN [s EXCEPT !.rmemo = IF prev = <<>> THEN Append(s.rmemo, <<key, rec.hash>>) ELSE s.rmemo]
   ELSE s
 
